@@ -124,9 +124,9 @@ func (g graph) store() types.EntityMap {
 // precomputed per n: target list (nodes + never), target subsets, policies
 type pre struct {
 	n        int
-	targets  []types.EntityUID // index n == never
-	inOne    []*cedar.PolicySet // principal in targets[b]
-	inSet    []*cedar.PolicySet // action in [subset]
+	targets  []types.EntityUID    // index n == never
+	inOne    []*cedar.PolicySet   // principal in targets[b]
+	inSet    []*cedar.PolicySet   // action in [subset]
 	isIn     [][]*cedar.PolicySet // [type][b] resource is T in targets[b]
 	inOneAST []*xast.Policy
 	inSetAST []*xast.Policy
